@@ -313,7 +313,16 @@ def expand(job) -> dict:
     seq = pre + path + cops
     at = len(pre) + len(path) - 1
     steps, fails = sd.run_history(lf, tx, seq, all_iters_at={at})
-    res['fails'] += fails
+    for f in fails:                                      # a shorter witness: the path and the offending call alone
+        n = f['where'].get('step', 0)
+        if n > at:
+            for short in (path + [seq[n]], pre + path + [seq[n]]):
+                _, f2 = sd.run_history(lf, tx, short)
+                f2 = [x for x in f2 if x['sig'] == f['sig']]
+                if f2:
+                    f = f2[0]
+                    break
+        res['fails'].append(f)
     key0 = state_key(lf, steps[at][1], cur_texts(tx, seq[:at + 1]), {F}, ('chain0', tuple(tx), repr(seq)))
     for n in range(at + 1, len(steps)):
         op, d = steps[n]
@@ -543,7 +552,7 @@ def run_exhaustive(ctx: common.Ctx, prop_sigs: tuple[str, ...], N: int, L: int, 
     ctx.case({'exhaustive': bounds_text(N, L, M, W), 'sequences': n_seq, 'steps': n_steps + n_wide_steps}, nontrivial=True)
     ctx.notes.append(
         f'exhaustive small scope, enumerated COMPLETELY ({bounds_text(N, L, M, W)}): {n_seq} operation sequences over '
-        f'{n_initial} initial stores; {len(seen)} distinct states reached, {n_expanded} of them (those within the bounds) expanded '
+        f'{n_initial} initial stores are covered (each is a path through the merged states; not each is executed separately); {len(seen)} distinct states reached, {n_expanded} of them (those within the bounds) expanded '
         f'with every operation (plus {len(wide_jobs)} stores of the wide slice): {n_steps + n_wide_steps} distinct (state, operation) steps run on the implementation with the list monitors and '
         f'compared, full concrete state, with Store.v evaluated in Coq ({len(fans)} fans, {len(chains)} refusal chains, '
         f'{len(init_cases)} initial stores); iter(a, b) for every ordered pair on every expanded state. The sequence count assumes what the merging assumes: '
@@ -570,6 +579,15 @@ def minimise(ctx, lf, tx, seq, budget: int = 30):
     """Drop operations (never the one that builds the store), then unused trailing tokens."""
     cur = list(seq)
     i, n = 0, 0
+    for k in range(1, min(len(cur) - 1, 5)):             # first: the shortest prefix that still sets the scene + the last op
+        cand = cur[:k] + [cur[-1]]
+        n += 1
+        try:
+            if _disagrees(ctx, lf, tx, cand):
+                cur = cand
+                break
+        except Exception:
+            pass
     while i < len(cur) - 1 and n < budget:
         cand = cur[:i] + cur[i + 1:]
         n += 1
